@@ -16,3 +16,4 @@ def run(ck):
     opacity.r6_outside_is_transparent(ck, P)    # C09-R6: REPEAT_NONE maps outside coordinates to transparent
     sampling.r7_neighbour_before_repeat(ck, P)
     sampling.r8_rotation_tiles(ck, P)
+    sampling.r9_signed_projective_division(ck, P)
